@@ -169,7 +169,8 @@ fn gen(rng: &mut Rng, opts: &Opts) -> DocD {
     if extra {
         for _ in 0..(1 + rng.usize(6)) {
             if rng.bool() {
-                pal.push(icy_engine::XTERM_256_PALETTE[16 + rng.usize(240)].1.get_rgb());
+                // all 256 xterm colours: the first sixteen (system colours) differ from the DOS palette, e.g. (128,0,0) vs (170,0,0)
+                pal.push(icy_engine::XTERM_256_PALETTE[if rng.chance(1, 3) { rng.usize(16) } else { 16 + rng.usize(240) }].1.get_rgb());
             } else {
                 pal.push((rng.byte(), rng.byte(), rng.byte()));
             }
